@@ -47,8 +47,9 @@ class Sym:
     """An opaque object (a manager, an exception class) that can only be
     compared for identity."""
 
-    def __init__(self, name):
+    def __init__(self, name, attrs=None):
         self.name = name
+        self.attrs = attrs      # None, or the attributes of the object
 
     def __repr__(self):
         return f'<{self.name}>'
@@ -81,11 +82,20 @@ class Machine:
                 return self.env[e.id]
             if e.id in ('True', 'False', 'None'):
                 return {'True': True, 'False': False, 'None': None}[e.id]
+            if e.id in self.SAFE and e.id not in self.stubs:
+                return self.SAFE[e.id]
             raise Unknown(f'name {e.id}')
         if isinstance(e, ast.Attribute):
             k = self.key(e)
             if k is not None and k in self.env:
                 return self.env[k]
+            try:
+                base = self.ev(e.value)
+            except Unknown:
+                base = None
+            if isinstance(base, Sym) and base.attrs is not None and \
+                    e.attr in base.attrs:
+                return base.attrs[e.attr]
             raise Unknown(f'attribute {au.src(e)}')
         if isinstance(e, ast.Subscript):
             c = self.ev(e.value)
@@ -246,6 +256,10 @@ class Machine:
         return out          # a generator, materialised
 
     def iterate(self, v):
+        if hasattr(v, '__next__'):
+            # an iterator (the lines of a file): handed out lazily, so
+            # that a second loop continues where the first one stopped
+            return v
         if isinstance(v, (set, frozenset)):
             # the order in which a set hands out its elements is not
             # specified: the model uses one that is not the sorted one,
@@ -308,7 +322,10 @@ class Machine:
                         self.env[k] = v
             return None
         if callable(f):
-            return f(*args, **(kw or {}))
+            try:
+                return f(*args, **(kw or {}))
+            except (TypeError, ValueError, KeyError, IndexError) as ex:
+                raise Raised(type(ex).__name__)
         raise Unknown('not callable')
 
     def call(self, e):
@@ -534,11 +551,30 @@ class Machine:
                         continue
                 raise Unknown('del')
             return
-        if isinstance(s, ast.Try) and not s.handlers:
+        if isinstance(s, ast.Try):
             try:
-                self.run(s.body)
+                try:
+                    self.run(s.body)
+                except Raised as r:
+                    for h in s.handlers:
+                        if _catches(h, r.name):
+                            if h.name:
+                                self.env[h.name] = Sym(r.name)
+                            self.run(h.body)
+                            break
+                    else:
+                        raise
+                else:
+                    self.run(s.orelse)
             finally:
                 self.run(s.finalbody)
+            return
+        if isinstance(s, ast.With):
+            for item in s.items:
+                v = self.ev(item.context_expr)
+                if item.optional_vars is not None:
+                    self.store(item.optional_vars, v)
+            self.run(s.body)
             return
         if isinstance(s, ast.Return):
             raise Returned(self.ev(s.value) if s.value is not None
@@ -576,6 +612,28 @@ class Machine:
                     return
             return
         raise Unknown(f'statement {type(s).__name__}')
+
+
+_EXC_PARENTS = {
+    'KeyError': {'LookupError'}, 'IndexError': {'LookupError'},
+    'ZeroDivisionError': {'ArithmeticError'},
+    'NotImplementedError': {'RuntimeError'},
+    'FileNotFoundError': {'OSError'},
+    'UnicodeDecodeError': {'ValueError'},
+}
+
+
+def _catches(handler, name):
+    if handler.type is None:
+        return True
+    types = handler.type.elts if isinstance(
+        handler.type, ast.Tuple) else [handler.type]
+    for t in types:
+        tn = au.src(t).rsplit('.', 1)[-1]
+        if tn in ('Exception', 'BaseException') or tn == name or \
+                tn in _EXC_PARENTS.get(name, ()):
+            return True
+    return False
 
 
 def _as_load(t):
